@@ -96,7 +96,7 @@ MODELS = {
                       model(3, 3, MaxChain=2, toks=(PLAIN, TOK_COMMA, TOK_QUOTE, TOK_REL), programs=PUNCTP)],
             'thorough': [model(5, 2, toks=(PLAIN, TOK_COMMA, TOK_QUOTE), programs=PUNCTP[:2] + PUNCTP[3:]),
                          model(4, 3, MaxChain=2, toks=(PLAIN, TOK_COMMA, TOK_QUOTE, TOK_REL), programs=PUNCTP)]},
-    'C14': {'quick': [model(5, 2, toks=(PLAIN, TOK_HD), labels=('X', 'X-1'), programs=[[NEGRA, BIN], [NEGRA, BINB], [BIN]]),
+    'C14': {'quick': [model(5, 2, toks=(PLAIN, TOK_HD), labels=('X', 'X-1', 'NP-SBJ-1'), programs=[[NEGRA, BIN], [NEGRA, BINB], [BIN]]),
                       model(3, 5, MaxChain=4, labels=('A', 'B'), programs=[[COL, UNC]])],
             'thorough': [model(6, 2, toks=(PLAIN, TOK_HD), labels=('X', 'X-1'), programs=[[NEGRA, BIN], [NEGRA, BINB], [BIN]]),
                          model(5, 3, toks=(PLAIN, TOK_HD), labels=('X',), programs=[[NEGRA, BIN]]),
@@ -251,7 +251,8 @@ RANDOM_PROGRAMS = {
     'C14': [[NEGRA, BIN], [NEGRA, BINB], [COL, UNC], [NEGRA, BIN, COL, UNC]],
     'C15': [[NEGRA], [RULES_P, NEGRA], [RULES_N, NEGRA], [NEGRA, RULES_P], [NEGRA, BIN, NEGRA], [RULES_P, RULES_N],
             [op('mark_heads_by_rules', preset='negra')], [op('mark_heads_by_rules', preset='ptb')],
-            [op('mark_heads_by_rules', preset='foo')], [op('mark_heads_by_rules')]],
+            [op('mark_heads_by_rules', preset='foo')], [op('mark_heads_by_rules')],
+            [op('mark_heads_by_rules', preset='')], [op('mark_heads_by_rules', preset='Negra')]],
     'C11': [[PDEL], [PTBS[0]], [PTBS[1]], [PTBS[3]], [INS[5]], [SUB[4]], [SUB[5]], [FILT[4]], [PDEL, INS[2]],
             [op('delete_terminal', pos=1)], [op('delete_terminal', pos=2), PDEL],
             # a terminal file naming one position twice is rejected
@@ -318,7 +319,8 @@ def random_cases(prop, tier, seed, mods):
     for k in range(n):
         dense[0] = prop in ('C13', 'C04') and k % 4 == 3      # phrases consisting of punctuation only
         T = treeio.random_tree(rnd, nmax=8 if tier == 'quick' else 11, maxcons=6,
-                               labels=(('S', 'NP', 'VP', 'NP-1') if prop != 'C11' else ('S', 'NP=2', 'VP-SBJ=1', 'NP-1', 'S=2-1'))
+                               labels=(('S', 'NP', 'VP', 'NP-1', 'NP-SBJ-1', "S-TPC-2'") if prop != 'C11'
+                                       else ('S', 'NP=2', 'VP-SBJ=1', 'NP-1', 'S=2-1'))
                                if prop not in ('C15', 'C05', 'C04')
                                else ('S', 'NP', 'VP', 'NP-1', 'CO', 'DL', 'PRN', 'INTJ', 'PP', 'FRAG'),
                                edges=('--', 'HD', 'NK'),
